@@ -71,6 +71,7 @@ func runC02(c *harness.Ctx) {
 	kind := t.Draw("kind", 7)
 	iat := 0
 	setBias(false)
+	steerPads(c, obfs4PadRanges...)
 	id := genObfs4Identity(c, iat)
 	rid := refIdentity(id)
 	cf, _ := transports.Get("obfs4").ClientFactory("")
